@@ -51,6 +51,15 @@ func c07corpus(r *drv.Run, n int) []*corpus.Item {
 			items = append(items, corpus.FlateFamily(rr, p)...)
 			continue
 		}
+		if i%64 == 13 && !toolErr {
+			// stored / uncompressed units in the middle of a stream
+			p := corpus.MakePayload(rr, "sandwich")
+			if ti, err := corpus.ToolItems(rr, p); err == nil {
+				items = append(items, ti...)
+			}
+			items = append(items, corpus.FlateFamily(rr, p)[:1]...)
+			continue
+		}
 		if i%64 == 9 && !toolErr {
 			// multi-block streams (bzip2's combined stream CRC, xz block lists)
 			p := corpus.MakePayload(rr, "multiblock")
